@@ -236,11 +236,13 @@ class SubQueryLineageHolder(ColumnLineageMixin):
             self.graph.add_edge(tgt_table, new_column, type=EdgeType.HAS_COLUMN)
             self.graph.add_edge(src_col.parent, src_col, type=EdgeType.HAS_COLUMN)
             self.graph.add_edge(src_col, new_column, type=EdgeType.LINEAGE)
-        # remove wildcard
-        if self.graph.has_node(tgt_wildcard):
-            self.graph.remove_node(tgt_wildcard)
+        # remove wildcard, target wildcard is kept as long as another source wildcard is still feeding it
         if self.graph.has_node(src_wildcard):
             self.graph.remove_node(src_wildcard)
+        if self.graph.has_node(tgt_wildcard) and not self.get_source_columns(
+            tgt_wildcard
+        ):
+            self.graph.remove_node(tgt_wildcard)
 
 
 class StatementLineageHolder(SubQueryLineageHolder, ColumnLineageMixin):
